@@ -106,92 +106,93 @@ impl Iterator for FlopExhaustiveEvaluatorIterator {
     type Item = Showdown;
 
     fn next(&mut self) -> Option<Showdown> {
-        if self.current_turn_index >= self.turn_to && self.current_river_index >= self.river_to {
-            return None;
-        }
-
-        let turn = self.current_deck[self.current_turn_index as usize];
-        let river = self.current_deck[self.current_river_index as usize];
-
-        self.current_board[3] = Some(turn);
-        self.current_board[4] = Some(river);
-
-        self.current_used_cards.insert(turn);
-        self.current_used_cards.insert(river);
-
-        let mut player_card_pairs = vec![];
-        let mut probability: f32 = 1.0;
-
-        let mut is_materialized = true;
-
-        for (player_index, player_entry) in self.player_entries.iter().enumerate() {
-            let entry = player_entry[self.current_player_indexes[player_index] as usize];
-
-            if self.current_used_cards.contains(&entry.0[0])
-                || self.current_used_cards.contains(&entry.0[1])
+        // blocked deals are skipped by looping, not by recursing: a long run of blocked
+        // deals must not grow the stack
+        loop {
+            if self.current_turn_index >= self.turn_to && self.current_river_index >= self.river_to
             {
-                is_materialized = false;
+                return None;
             }
 
-            player_card_pairs.push(entry.0);
-            probability *= entry.1;
-        }
+            let turn = self.current_deck[self.current_turn_index as usize];
+            let river = self.current_deck[self.current_river_index as usize];
 
-        let mut showdown = None;
+            self.current_board[3] = Some(turn);
+            self.current_board[4] = Some(river);
 
-        if is_materialized {
-            showdown = Showdown::new(
-                player_card_pairs,
-                [
-                    self.current_board[0].unwrap(),
-                    self.current_board[1].unwrap(),
-                    self.current_board[2].unwrap(),
-                    self.current_board[3].unwrap(),
-                    self.current_board[4].unwrap(),
-                ],
-                probability,
-            );
-        }
+            self.current_used_cards.insert(turn);
+            self.current_used_cards.insert(river);
 
-        let mut player_index_to_increment = None;
+            let mut player_card_pairs = vec![];
+            let mut probability: f32 = 1.0;
 
-        for i in 0..self.current_player_indexes.len() {
-            let ri = self.current_player_indexes.len() - i - 1;
+            let mut is_materialized = true;
 
-            if self.current_player_indexes[ri] < self.player_entries[ri].len() as u8 - 1 {
-                player_index_to_increment = Some(ri);
+            for (player_index, player_entry) in self.player_entries.iter().enumerate() {
+                let entry = player_entry[self.current_player_indexes[player_index] as usize];
 
-                break;
-            }
-        }
+                if self.current_used_cards.contains(&entry.0[0])
+                    || self.current_used_cards.contains(&entry.0[1])
+                {
+                    is_materialized = false;
+                }
 
-        self.current_board[3] = None;
-        self.current_board[4] = None;
-
-        self.current_used_cards.clear();
-
-        if let Some(player_index_to_increment) = player_index_to_increment {
-            self.current_player_indexes[player_index_to_increment] += 1;
-
-            for i in (player_index_to_increment + 1)..self.current_player_indexes.len() {
-                self.current_player_indexes[i] = 0;
+                player_card_pairs.push(entry.0);
+                probability *= entry.1;
             }
 
-            return showdown.or_else(|| self.next());
+            let mut showdown = None;
+
+            if is_materialized {
+                showdown = Showdown::new(
+                    player_card_pairs,
+                    [
+                        self.current_board[0].unwrap(),
+                        self.current_board[1].unwrap(),
+                        self.current_board[2].unwrap(),
+                        self.current_board[3].unwrap(),
+                        self.current_board[4].unwrap(),
+                    ],
+                    probability,
+                );
+            }
+
+            let mut player_index_to_increment = None;
+
+            for i in 0..self.current_player_indexes.len() {
+                let ri = self.current_player_indexes.len() - i - 1;
+
+                if self.current_player_indexes[ri] < self.player_entries[ri].len() as u8 - 1 {
+                    player_index_to_increment = Some(ri);
+
+                    break;
+                }
+            }
+
+            self.current_board[3] = None;
+            self.current_board[4] = None;
+
+            self.current_used_cards.clear();
+
+            if let Some(player_index_to_increment) = player_index_to_increment {
+                self.current_player_indexes[player_index_to_increment] += 1;
+
+                for i in (player_index_to_increment + 1)..self.current_player_indexes.len() {
+                    self.current_player_indexes[i] = 0;
+                }
+            } else if self.current_river_index < 48 {
+                self.current_river_index += 1;
+                self.current_player_indexes.fill(0);
+            } else {
+                self.current_turn_index += 1;
+                self.current_river_index = self.current_turn_index + 1;
+                self.current_player_indexes.fill(0);
+            }
+
+            if showdown.is_some() {
+                return showdown;
+            }
         }
-
-        if self.current_river_index < 48 {
-            self.current_river_index += 1;
-            self.current_player_indexes.fill(0);
-
-            return showdown.or_else(|| self.next());
-        }
-
-        self.current_turn_index += 1;
-        self.current_river_index = self.current_turn_index + 1;
-        self.current_player_indexes.fill(0);
-
-        showdown.or_else(|| self.next())
     }
 }
 
